@@ -15,6 +15,7 @@ import (
 type Tok struct {
 	A   *Atom
 	Lit string
+	V   interp.Value // reference-only: an explicit string value
 }
 
 func L(s string) Tok  { return Tok{Lit: s} }
@@ -28,6 +29,9 @@ func (t Tok) Text() string {
 
 // Val is the string value the token's literal has after symbolisation.
 func (t Tok) Val() interp.Value {
+	if t.V != nil {
+		return t.V
+	}
 	if t.A != nil {
 		return t.A.Val
 	}
